@@ -690,21 +690,22 @@ func run(c *fw.Case) {
 		return
 	}
 	if sum.RowsImported != nValid {
-		// attribute to the malformation kinds present (one kind: its name; several: "several_kinds")
+		// signature: direction of the mismatch; a malformed row that was imported is attributed to the
+		// malformation kind when the file holds only one kind
 		var kinds []string
 		for k := range byKind {
 			if k != "plain" && k != "dup" {
 				kinds = append(kinds, k)
 			}
 		}
-		cls := "valid_rows_only"
+		cls := "valid_row_skipped"
 		switch {
+		case sum.RowsImported > nValid && len(kinds) == 1:
+			cls = "malformed_row_imported|" + kinds[0]
+		case sum.RowsImported > nValid:
+			cls = "malformed_row_imported|several_kinds"
 		case f.Features["v6_dotted_tail"]:
-			cls = "v6_dotted_tail"
-		case len(kinds) == 1:
-			cls = kinds[0]
-		case len(kinds) > 1:
-			cls = "several_kinds"
+			cls = "valid_row_skipped|v6_dotted_tail"
 		}
 		c.Violatef("imported_count|"+cls, "imported %d rows, but %d of the %d rows read are valid (skipped %d)\n%s", sum.RowsImported, nValid, limit, sum.RowsSkipped, witness())
 		return
